@@ -201,6 +201,8 @@ pub enum Op {
     Stop(usize),
     Remove(usize, bool),
     Upgrade { idx: usize, force: bool, start: bool },
+    /// not a manager operation: the service's process dies on its own (crash, kill -9, OOM)
+    Die(usize),
 }
 
 fn op_json(op: &Op) -> serde_json::Value {
@@ -210,6 +212,7 @@ fn op_json(op: &Op) -> serde_json::Value {
         Op::Stop(i) => json!({"stop": i}),
         Op::Remove(i, keep) => json!({"remove": i, "keep_directories": keep}),
         Op::Upgrade { idx, force, start } => json!({"upgrade": idx, "force": force, "start": start}),
+        Op::Die(i) => json!({"process_dies": i}),
     }
 }
 
@@ -275,10 +278,16 @@ fn run_sequence(rt: &tokio::runtime::Runtime, seq: &[Op], refresh_plan: &[bool],
     let mut removed_names: BTreeSet<String> = BTreeSet::new();
     // services whose process was left alive by a start / upgrade that returned an error (recorded as not running)
     let mut orphans: BTreeSet<String> = BTreeSet::new();
+    // services whose process died on its own and that no manager operation or refresh has looked at since:
+    // their record is legitimately stale until then
+    let mut stale: BTreeSet<String> = BTreeSet::new();
     for (step, op) in seq.iter().enumerate() {
         let calls_before = os.0.lock().expect("os").calls;
         // antctl commands refresh the registry first; the daemon's control path (rpc.rs) and library users do not
         let refreshed = if refresh_plan.get(step).copied().unwrap_or(true) { rt.block_on(refresh_node_registry(&mut registry, &os, false, false, false)) } else { Ok(()) };
+        if refresh_plan.get(step).copied().unwrap_or(true) && refreshed.is_ok() {
+            stale.clear();
+        }
         let before_json = serde_json::to_value(&registry).unwrap_or_default();
         let running_before: BTreeSet<String> = registry.nodes.iter().filter(|n| n.status == ServiceStatus::Running).map(|n| n.service_name.clone()).collect();
         let n = registry.nodes.len();
@@ -302,7 +311,7 @@ fn run_sequence(rt: &tokio::runtime::Runtime, seq: &[Op], refresh_plan: &[bool],
                 }
                 ("add".into(), r, None)
             }
-            Op::Start(i) | Op::Stop(i) | Op::Remove(i, _) | Op::Upgrade { idx: i, .. } if n == 0 => {
+            Op::Start(i) | Op::Stop(i) | Op::Remove(i, _) | Op::Upgrade { idx: i, .. } | Op::Die(i) if n == 0 => {
                 let _ = i;
                 ("skip".into(), Ok(()), None)
             }
@@ -327,6 +336,14 @@ fn run_sequence(rt: &tokio::runtime::Runtime, seq: &[Op], refresh_plan: &[bool],
                 let mut m = ServiceManager::new(service, Box::new(os.clone()), VerbosityLevel::Minimal);
                 ("remove".into(), rt.block_on(m.remove(*keep)).map_err(|e| format!("{e}")), Some(idx))
             }
+            Op::Die(i) => {
+                let idx = i % n;
+                let program = registry.nodes[idx].antnode_path.clone();
+                if os.0.lock().expect("os").procs.remove(&program).is_some() {
+                    stale.insert(registry.nodes[idx].service_name.clone());
+                }
+                ("process-dies".into(), Ok(()), None)
+            }
             Op::Upgrade { idx: i, force, start } => {
                 let idx = i % n;
                 let program = registry.nodes[idx].antnode_path.clone();
@@ -344,6 +361,11 @@ fn run_sequence(rt: &tokio::runtime::Runtime, seq: &[Op], refresh_plan: &[bool],
         log.push(json!({"step": step, "op": op_json(op), "result": result.as_ref().map(|_| "ok").map_err(|e| e.chars().take(80).collect::<String>()), "refresh_ok": refreshed.is_ok(), "calls": [calls_before, calls_now],
             "registry": registry.nodes.iter().map(|x| format!("{}:{:?}:pid={:?}", x.service_name, x.status, x.pid)).collect::<Vec<_>>(),
             "processes": procs.iter().map(|(p, pid)| format!("{}={pid}", p.file_name().and_then(|f| p.parent().and_then(|d| d.file_name()).map(|d| format!("{}/{}", d.to_string_lossy(), f.to_string_lossy()))).unwrap_or_default())).collect::<Vec<_>>()}));
+        if let (Some(idx), Ok(())) = (target, &result) {
+            // the manager has just dealt with this service successfully: its record must be accurate again
+            // (an operation that failed may not have been able to look at the process at all)
+            stale.remove(&registry.nodes[idx].service_name);
+        }
         // a failed start / upgrade that nevertheless left the process alive
         if let Some(idx) = target {
             // (an upgrade whose inner start fails still returns Ok(UpgradedButNotStarted))
@@ -356,7 +378,7 @@ fn run_sequence(rt: &tokio::runtime::Runtime, seq: &[Op], refresh_plan: &[bool],
         let tag = |name: &String| if orphans.contains(name) { ":process-left-by-failed-start" } else { "" };
         // ---- oracle
         for node in &registry.nodes {
-            if node.status == ServiceStatus::Running {
+            if node.status == ServiceStatus::Running && !stale.contains(&node.service_name) {
                 match procs.get(&node.antnode_path) {
                     Some(pid) if Some(*pid) == node.pid => {}
                     live => {
@@ -440,10 +462,11 @@ fn random_sequence(rng: &mut impl Rng, max_len: usize) -> Vec<Op> {
             Op::Add { count, node_port, rpc_port, metrics: rng.gen_bool(0.2) }
         } else {
             let idx = if rng.gen_bool(0.7) { focus } else { rng.gen_range(0..4) };
-            match rng.gen_range(0..10) {
+            match rng.gen_range(0..11) {
                 0..=3 => Op::Start(idx),
                 4..=5 => Op::Stop(idx),
                 6..=7 => Op::Remove(idx, rng.gen()),
+                8 => Op::Die(idx),
                 _ => Op::Upgrade { idx, force: rng.gen(), start: rng.gen() },
             }
         };
@@ -496,6 +519,7 @@ impl Check for C19 {
                 Op::Stop(_) => "ops:stop",
                 Op::Remove(..) => "ops:remove",
                 Op::Upgrade { .. } => "ops:upgrade",
+                Op::Die(_) => "ops:process-dies",
             });
         }
         let seq_json: Vec<_> = seq.iter().map(op_json).collect();
